@@ -533,6 +533,56 @@ impl Default for TransactionManager {
     }
 }
 
+// verif-hooks (H9): canonical dump of the manager's bookkeeping, used by the
+// verification harness as part of its state key (read-only, add-only).
+#[cfg(feature = "verif-hooks")]
+impl TransactionManager {
+    /// Returns one line per retained transaction (sorted by id): state, level,
+    /// start epoch, sorted write set, sorted read set, recorded commit epoch.
+    #[must_use]
+    pub fn verif_dump(&self) -> Vec<String> {
+        let txns = self.transactions.read();
+        let committed = self.committed_epochs.read();
+        let mut ids: Vec<TxId> = txns.keys().copied().collect();
+        for id in committed.keys() {
+            if !ids.contains(id) {
+                ids.push(*id);
+            }
+        }
+        ids.sort_unstable();
+        ids.iter()
+            .map(|id| {
+                let (head, ws, rs) = match txns.get(id) {
+                    Some(info) => {
+                        let mut ws: Vec<String> =
+                            info.write_set.iter().map(|e| format!("{e:?}")).collect();
+                        ws.sort();
+                        let mut rs: Vec<String> =
+                            info.read_set.iter().map(|e| format!("{e:?}")).collect();
+                        rs.sort();
+                        (
+                            format!(
+                                "{:?}/{:?}/{}",
+                                info.state,
+                                info.isolation_level,
+                                info.start_epoch.as_u64()
+                            ),
+                            ws,
+                            rs,
+                        )
+                    }
+                    None => ("absent".to_string(), Vec::new(), Vec::new()),
+                };
+                format!(
+                    "{}:{head}:w{ws:?}:r{rs:?}:c{:?}",
+                    id.as_u64(),
+                    committed.get(id).map(|e| e.as_u64())
+                )
+            })
+            .collect()
+    }
+}
+
 #[cfg(test)]
 mod tests {
     use super::*;
